@@ -163,6 +163,10 @@ func createASTTypeExpr(pkg string, t types.Type, varPool *VarPool, imports map[s
 			if err != nil {
 				return nil, fmt.Errorf("param %d: %w", i, err)
 			}
+			// The last parameter of a variadic function has a slice type: spell it ...T, not []T.
+			if arr, ok := expr.(*ast.ArrayType); ok && typ.Variadic() && i == typ.Params().Len()-1 && arr.Len == nil {
+				expr = &ast.Ellipsis{Elt: arr.Elt}
+			}
 			funcFields = append(funcFields, &ast.Field{
 				Names: []*ast.Ident{ast.NewIdent(fmt.Sprintf("arg%d", i))},
 				Type:  expr,
